@@ -36,7 +36,12 @@ func richXMP() []byte {
 }
 
 // avifBoxes builds an item-based AVIF/HEIF file: ftyp, meta{hdlr,pitm,iinf,iref,iprp,idat,iloc}, mdat.
-func avifBoxes(tiff *gen.Doc, major string) []*gen.Box {
+func avifBoxes(tiff *gen.Doc, major string) []*gen.Box { return avifBoxesVariant(tiff, major, 0) }
+
+// avifBoxesVariant: 1 = a second, unrelated mdat box in front of the one that holds the items; 2 = 600 further entries
+// in the item list (an iinf box of 12 KB); 3 = the same with an entry of declared size 0 in the middle; 4 = one entry
+// of 5000 bytes (a long content type) followed by the others
+func avifBoxesVariant(tiff *gen.Doc, major string, variant int) []*gen.Box {
 	be := binary.BigEndian
 	raw := func(b []byte) *gen.Doc { return &gen.Doc{B: b} }
 	infe := func(id uint16, typ string, extra string) *gen.Box {
@@ -53,6 +58,21 @@ func avifBoxes(tiff *gen.Doc, major string) []*gen.Box {
 	iinf := &gen.Box{Type: "iinf", Full: true, Payload: iinfP, Children: []*gen.Box{
 		infe(1, "av01", ""), infe(2, "Exif", ""), infe(3, "mime", "application/rdf+xml\x00"),
 	}}
+	switch variant {
+	case 2, 3:
+		for i := 0; i < 600; i++ {
+			e := infe(uint16(10+i), "mime", "x\x00")
+			if variant == 3 && i == 300 {
+				e.SizeDelta = -int64(4 + 4 + 4 + len(e.Payload.B)) // declared size 0
+			}
+			iinf.Children = append(iinf.Children, e)
+		}
+		iinfP.B[0], iinfP.B[1] = 0x02, 0x5b // 603 entries
+	case 4:
+		big := infe(9, "mime", string(pattern(5000, 'm'))+"\x00")
+		iinf.Children = append([]*gen.Box{big}, iinf.Children...)
+		iinfP.B[1] = 4
+	}
 	hdlr := &gen.Box{Type: "hdlr", Full: true, Payload: raw([]byte("\x00\x00\x00\x00pict\x00\x00\x00\x00\x00\x00\x00\x00\x00\x00\x00\x00\x00"))}
 	pitm := &gen.Box{Type: "pitm", Full: true, Payload: raw([]byte{0, 1})}
 	iref := &gen.Box{Type: "iref", Full: true, Children: []*gen.Box{{Type: "cdsc", Payload: raw([]byte{0, 2, 0, 1, 0, 1})}}}
@@ -103,6 +123,9 @@ func avifBoxes(tiff *gen.Doc, major string) []*gen.Box {
 		compat = []string{"mif1", "heic"}
 	}
 	top := []*gen.Box{gen.Ftyp(major, 0, compat...), meta, mdat}
+	if variant == 1 {
+		top = []*gen.Box{top[0], meta, {Type: "mdat", Payload: raw(make([]byte, 16))}, mdat}
+	}
 	// first pass to learn where mdat's payload starts
 	gen.EncodeBoxes(top)
 	base := mdat.PayloadStart
@@ -314,6 +337,12 @@ func repetitionSeeds() []seed {
 		}
 		add("xmp-100000-nested-descriptions", "xmp", b.Bytes())
 	}
+	for v := 2; v <= 4; v++ { // item lists longer than the reader's window, well-formed and with one entry the walk cannot step over
+		for _, major := range []string{"avif", "heic"} {
+			kind := map[string]string{"avif": "avif", "heic": "heif"}[major]
+			add(fmt.Sprintf("%s-long-item-list-variant-%d", major, v), kind, gen.EncodeBoxes(avifBoxesVariant(minBlock, major, v)).B)
+		}
+	}
 	{ // PNG with thousands of empty ancillary chunks before the eXIf chunk
 		var before []gen.Chunk
 		for i := 0; i < 20000; i++ {
@@ -498,6 +527,8 @@ func seeds() []seed {
 	add("heif-rich-MM", "heif", gen.EncodeBoxes(gen.HEIF(gen.EncodeTIFF(rich, gen.CanonicalLayout(), MM, gen.AllDirs), 0)))
 	add("heic-items-min-II", "heif", gen.EncodeBoxes(avifBoxes(gen.EncodeTIFF(min, gen.CanonicalLayout(), II, gen.AllDirs), "heic")))
 	add("avif-items-min-MM", "avif", gen.EncodeBoxes(avifBoxes(gen.EncodeTIFF(min, gen.CanonicalLayout(), MM, gen.AllDirs), "avif")))
+	add("heic-items-two-mdat-II", "heif", gen.EncodeBoxes(avifBoxesVariant(gen.EncodeTIFF(min, gen.CanonicalLayout(), II, gen.AllDirs), "heic", 1)))
+	add("avif-items-two-mdat-MM", "avif", gen.EncodeBoxes(avifBoxesVariant(gen.EncodeTIFF(min, gen.CanonicalLayout(), MM, gen.AllDirs), "avif", 1)))
 	add("xmp-sidecar", "xmp", &gen.Doc{B: xp})
 	{ // token-dense packets: one look-ahead per attribute / element, many of them inside the final buffer
 		dx := denseXMP(120)
